@@ -51,7 +51,7 @@ for p in props:
             "engine": "dvcheck",
             "level_claimed": {"category": "other",
                               "text": "Static analysis of the type-checked source (go/types + go/ssa), re-read from /repo on every run. Decides a structural necessary condition of the property on every path / call site, not the behaviour: " + cl["decides"] + " NOT decided: " + cl["not_decided"],
-                              "design_ref": "DESIGN.md section 4, " + i},
+                              "design_ref": ("DESIGN.md section 4, " + i) if i not in ("C18", "C19", "C22", "C33", "C46") else ("DESIGN.md sections 0, 5 and 11 (as-built inventory), " + i)},
             "level_note": "Trusted base: go/types and go/ssa of Go 1.26.8 / x/tools v0.50.0; the frozen rule tables in /verif/checker/internal/rules (matchers, allowlists, exceptions, each with a reason); the OS implements fsync/rename/flock as documented. An unresolved anchor or an unclassifiable site is reported as a violation (undecided), never silently passed.",
             "technique": cl["technique"],
         })
